@@ -54,6 +54,14 @@ func noListAliasing(a, b *SearchCriteria) bool {
 //@ pure
 func distinctBase(x, y uintptr) bool { return x != y || x == 0 }
 
+// NoSelfAliasing: the flag lists of one criteria value do not share a backing
+// array (exported for the contracts of the server parser).
+//
+//@ pure
+func NoSelfAliasing(a *SearchCriteria) bool {
+	return distinctBase(__base(a.Flag), __base(a.NotFlag))
+}
+
 // For the Not and Or lists (elements are whole criteria, 43 and 86 memory
 // leaves) only the resulting length is stated;
 // element-wise equalities over such wide elements do not discharge within the
